@@ -421,6 +421,13 @@ def run(ctx):
 
     # ---- 5. binding self-tests
     selftests(ctx, binp, first_lines, good_trace, good_crash)
+    # ---- 6. the record layer on top of the store: client/peersdb (spec/PeersDB.tla)
+    import c19_peers
+    pr = c19_peers.stage(ctx)
+    states += pr["states"]
+    transitions += pr["transitions"]
+    replayed += pr["replayed"]
+    ctx.cov["peers_database"] = pr
     finish_cov(ctx, states, transitions, traces_validated, replayed, crash_runs)
 
 
@@ -512,6 +519,9 @@ def finish_cov(ctx, states, transitions, traces_validated, replayed, crash_runs)
 def replay_cmd(ctx, path):
     j = json.load(open(path))
     rp = j["replay"]
+    if rp.get("kind", "").startswith("peers-"):
+        import c19_peers
+        return c19_peers.replay_line(ctx, rp)
     binp = ctx.build("qdb")
     if rp.get("kind") == "line":
         p = os.path.join(ctx.scratch, "one.json")
